@@ -508,7 +508,11 @@ func shapesFor(c cellT) []shapeT {
 		shapes = []shapeT{
 			{"deep-flat", `{"type":"object","properties":{"i":{"type":"integer"},"s":{"type":"string"}},"required":["i"]}`, []string{`{"i":1,"s":"a"}`, `{"i":-2}`, `{"s":"abc"}`}},
 			{"deep-nested", `{"type":"object","properties":{"o":{"type":"object","properties":{"n":{"type":"number"},"t":{"type":"string"}}},"l":{"type":"array","items":{"type":"integer"}},"i":{"type":"integer"}}}`,
-				[]string{`{"o":{"n":1.5,"t":"a"},"i":1}`, `{"l":[1,2,3]}`, `{"o":{"n":2},"l":[5]}`, `{"i":7}`}},
+				[]string{`{"o":{"n":1.5,"t":"a"},"i":1}`, `{"l":[1,2,3]}`, `{"o":{"n":2},"l":[5]}`, `{"i":7}`,
+					// indexes with two and three digits: 10 sorts before 9 as text
+					`{"l":[0,1,2,3,4,5,6,7,8,9,10,11]}`, `{"l":[` + strings.TrimSuffix(strings.Repeat("7,", 101), ",") + `]}`}},
+			{"deep-bounded-array", `{"type":"object","properties":{"l":{"type":"array","items":{"type":"integer"},"maxItems":11}}}`,
+				[]string{`{"l":[0,1,2,3,4,5,6,7,8,9,10]}`, `{"l":[0,1,2,3,4,5,6,7,8,9,10,11]}`}},
 			{"deep-additional", `{"type":"object","additionalProperties":{"type":"object","properties":{"v":{"type":"integer"}}}}`, []string{`{"a":{"v":1},"b":{"v":2}}`}},
 		}
 	}
